@@ -231,12 +231,18 @@ func corpus(prop string) []NamedScenario {
 		st := newStd(d)
 		return mk(prop, st, sendReq("r0", st.Alice, hostA, J{"@context": asCtx, "type": "Note", "content": "sent", "to": st.Bob.ID, "bto": st.Dave}))
 	})
+	pageItems := func(st *Std, box string) {
+		st.W.Servers[0].Docs = append(st.W.Servers[0].Docs, DocSpec{box, mustJSON(J{"@context": asCtx, "type": "OrderedCollectionPage", "id": box,
+			"orderedItems": []interface{}{st.RLike, J{"type": "Create", "id": "https://" + hostR + "/act/c1", "actor": st.Dave}, st.RLike, "https://" + hostR + "/act/c2"}})})
+	}
 	add("get/inbox", func() *RunSpec {
 		st := newStd(d)
+		pageItems(st, st.Alice.Inbox)
 		return mk(prop, st, getReq("r0", "getInbox", st.Alice, hostA))
 	})
 	add("get/outbox", func() *RunSpec {
 		st := newStd(d)
+		pageItems(st, st.Alice.Outbox)
 		return mk(prop, st, getReq("r0", "getOutbox", st.Alice, hostA))
 	})
 	add("get/handler", func() *RunSpec {
